@@ -52,7 +52,7 @@ func selftest(ids []string) int {
 						c.Undecided("analyser-panic", id, fmt.Sprintf("%v\n%s", r, debug.Stack()))
 					}
 				}()
-				fn(c)
+				checks.Run(id, c)
 			}()
 			engine.GlobalOverlay = nil
 			hit := false
